@@ -340,3 +340,11 @@ def run(check: Check) -> None:
     train = [0.0, 0.3, 1.0, 1.0, 2.2, 3.5, 4.0, 5.5, 6.0]
     for cyclic, df in ((False, 3), (False, 4), (True, 3)):
         _crs_center(check, cc if cyclic else cr, cyclic, train, df, tmo)
+    # centering when some TRAINING values lie outside explicit bounds, under every extrapolation mode (ground)
+    for cyclic, mode in itertools.product((False, True), ("extend", "clip", "zero", "na")):
+        p = {"kind": "c12_crs_center", "cyclic": cyclic, "train": train, "df": 4 if not cyclic else 3, "mode": mode, "bounds": [1.0, 5.0]}
+        bad = replays.run(p)
+        check.case(f"crs center out-of-bounds cyclic={cyclic} {mode}")
+        check.obligation("crs.center_out_of_bounds/ground", "refuted" if bad else "ground")
+        if bad:
+            check.violation(f"crs_center(cyclic={cyclic},extrapolation={mode},training data outside the bounds)::{bad.split(':', 1)[0]}", bad, p)
